@@ -80,6 +80,7 @@ def accept_lines(chk, quick):
             for _ in range(2 if quick else 12):
                 insts.append(("rand", g.instance(key, "rand")))
             insts += shape_variants(g, key, rng, quick)
+            insts += constraint_boundaries(g, key, g.instance(key, "min"), t)
             for how, d in insts:
                 for wrap in (("plain",) if quick and rng.random() < 0.6 else ("plain", "bundle")):
                     if is_obs20(key, v):
@@ -164,6 +165,32 @@ def shape_variants(g, key, rng, quick):
                 x[d["name"]] = {"received": ["a", "b"], "received-spf": "pass", "x": "1"}
                 x["granular_markings"] = [{"selectors": [d["name"] + ".received-spf", d["name"] + ".received.[1]", d["name"] + ".x"], "marking_ref": "marking-definition--" + g.uid()}]
                 out.append(("marking:hyphen_sibling:" + d["name"], x))
+    return out
+
+
+def constraint_boundaries(g, key, base, t):
+    """valid instances ON the boundary of every order constraint of the frozen model (equal instants where the rule admits them, one millisecond apart, far apart),
+    with nothing else wrong: members the pair depends on are supplied, flags that forbid one of the pair are false"""
+    descs = {d["name"]: d for d in t["properties"]}
+    order = [d["name"] for d in t["properties"]]
+    out = []
+    for c in t["constraints"]:
+        if c["k"] not in ("le", "lt") or c["a"] not in descs or c["b"] not in descs:
+            continue
+        for how, ta, tb in (("equal", "2021-03-04T05:06:07.000Z", "2021-03-04T05:06:07.000Z"), ("one_ms", "2021-03-04T05:06:07.000Z", "2021-03-04T05:06:07.001Z"),
+                            ("far", "2001-01-01T00:00:00.000Z", "2031-12-31T23:59:59.999Z")):
+            if how == "equal" and c["k"] == "lt":
+                continue
+            x = copy.deepcopy(base)
+            x[c["a"]], x[c["b"]] = ta, tb
+            for c2 in t["constraints"]:
+                if c2["k"] == "if_true_forbids" and c2["b"] in (c["a"], c["b"]):
+                    x[c2["a"]] = False
+                if c2["k"] == "requires" and c2["a"] in (c["a"], c["b"]) and c2["b"] not in x and c2["b"] in descs:
+                    x[c2["b"]] = g.value(dict(descs[c2["b"]]), order.index(c2["b"]), t["type"] or "")
+            for n in [n for n in order if n in x]:
+                x[n] = x.pop(n)
+            out.append(("boundary:%s_%s_%s" % (c["a"], how, c["b"]), x))
     return out
 
 
@@ -517,8 +544,74 @@ def emit_lines(chk, quick, junk=True):
                     if ln is not None:
                         lines.append(ln)
     lines += object_ref_lines()
+    lines += value_donor_lines(chk, quick)
     if junk:
         lines += junk_lines(chk, quick)
+    return lines
+
+
+def value_donor_lines(chk, quick):
+    """property VALUES taken from library objects and handed to constructors / new_version: a timestamp value carries the precision rules of the property it came from
+    (the other spec version, another property), and must still be written by the rules of the property that receives it"""
+    import stix2
+    import stix2.versioning
+    lines = []
+    for v in VERSIONS:
+        m, o = (stix2.v20, stix2.v21) if v == "2.0" else (stix2.v21, stix2.v20)
+        g = schema.Gen(v, chk.rng)
+        donors = []
+        for tag, mod in (("other_version", o), ("same_version", m)):
+            for digits in ("123456", "120000", "000000", "999999"):
+                try:
+                    kw = {"identity_class": "individual"} if mod is stix2.v20 else {}
+                    d = mod.Identity(name="donor", created="2019-01-01T00:00:00.%sZ" % digits, modified="2019-06-01T00:00:00.%sZ" % digits, **kw)
+                    donors.append(("%s.%s" % (tag, digits), d.created, d.modified))
+                    b = mod.Bundle(d)
+                    donors.append(("%s.bundle_member.%s" % (tag, digits), b.objects[0].created, b.objects[0].modified))
+                except Exception:  # noqa  (a donor that cannot be built is no case)
+                    pass
+        for key in g.keys():
+            t = g.types[key]
+            if is_obs20(key, v):
+                continue
+            tsp = [d["name"] for d in t["properties"] if d["kind"] == "timestamp"]
+            if not tsp:
+                continue
+            import stix2.registry
+            base = g.instance(key, "min")
+            cls = stix2.registry.class_for_type(base.get("type"), v, key.split(":")[0]) if isinstance(base, dict) else None
+            if cls is None:
+                continue
+            for tag, c, mo in (donors if not quick else chk.rng.sample(donors, min(6, len(donors))) + [x for x in donors if x[0] == "other_version.123456"]):
+                variants = []
+                if "created" in tsp and "modified" in tsp:
+                    variants.append(("created+modified", {"created": c, "modified": mo}))
+                for n in tsp:
+                    if n not in ("created", "modified"):
+                        variants.append((n, {n: mo}))
+                for what, repl in variants:
+                    line = {"kind": "emit", "v": v, "key": key, "ctx": "timestamp_value_from:%s:%s" % (tag, what), "entry": "constructor", "strict": True, "ok": False, "family": True,
+                            "exc": "none", "doc": {"key": key, "props": []}, "input": {"generated": "value_donor_lines", "base": base, "donor": tag, "into": what}}
+                    try:
+                        kw = {k: copy.deepcopy(val) for k, val in base.items()}
+                        kw.update(repl)
+                        obj = cls(**kw)
+                        out = out_json(obj)
+                        line.update(ok=True, doc=lex.doc(out, v, key), output=out)
+                    except Exception as e:  # noqa
+                        line.update(exc=type(e).__name__, family=in_family(e), msg=str(e)[:160])
+                    lines.append(line)
+                    if "modified" in tsp and what == "created+modified":
+                        line = {"kind": "emit", "v": v, "key": key, "ctx": "new_version_modified_from:%s" % tag, "entry": "new_version", "strict": True, "ok": False, "family": True,
+                                "exc": "none", "doc": {"key": key, "props": []}, "input": {"generated": "value_donor_lines", "base": base, "donor": tag, "into": "new_version(modified=)"}}
+                        try:
+                            first = cls(**dict({k: copy.deepcopy(val) for k, val in base.items()}, created="2018-01-01T00:00:00.000Z", modified="2018-01-01T00:00:00.000Z"))
+                            obj = stix2.versioning.new_version(first, modified=mo)
+                            out = out_json(obj)
+                            line.update(ok=True, doc=lex.doc(out, v, key), output=out)
+                        except Exception as e:  # noqa
+                            line.update(exc=type(e).__name__, family=in_family(e), msg=str(e)[:160])
+                        lines.append(line)
     return lines
 
 
@@ -1115,10 +1208,16 @@ def injections(g, key, base, rng):
             x = copy.deepcopy(base)
             x[n]["x_custom_emb"] = "v"
             out.append(("embedded:%s" % n, x))
+            x = copy.deepcopy(base)          # the constructors' own keyword for custom content, arriving as a member of nested JSON: custom content like any other
+            x[n]["custom_properties"] = {"x_custom_lit": "v"}
+            out.append(("embedded_literal_custom_properties_key:%s" % n, x))
         if d["kind"] == "list" and d["contained"]["kind"] == "embedded" and base[n]:
             x = copy.deepcopy(base)
             x[n][-1]["x_custom_emb"] = "v"
             out.append(("embedded_in_list:%s" % n, x))
+            x = copy.deepcopy(base)
+            x[n][-1]["custom_properties"] = {"x_custom_lit": "v"}
+            out.append(("embedded_in_list_literal_custom_properties_key:%s" % n, x))
         if d["kind"] == "hashes":
             for nm, hv in (("library_known_not_in_spec", ("TLSH", "0" * 70) if g.v == "2.0" else ("SHA-224", "0" * 56)), ("unknown_algorithm", ("FOOHASH", "abc"))):
                 x = copy.deepcopy(base)
@@ -1297,6 +1396,21 @@ def custom_lines(chk, quick):
                 lines.append(custom_one(v, "objects:?", "unregistered_type_with_extension_definition:%s" % et, u, "strict", False))
                 lines.append(custom_one(v, "objects:bundle", "bundle_member:unregistered_type_with_extension_definition:%s" % et,
                                         {"type": "bundle", "id": "bundle--11111111-1111-4111-8111-111111111111", "objects": [u]}, "strict", False))
+        # the constructors' keyword `custom_properties` arriving as a member of *nested* JSON (container members, bundle members): custom content like any other
+        odl = {"type": "observed-data", "id": "observed-data--11111111-1111-4111-8111-111111111111", "created": "2020-01-01T00:00:00.000Z", "modified": "2020-01-01T00:00:00.000Z",
+               "first_observed": "2020-01-01T00:00:00Z", "last_observed": "2020-01-01T00:00:00Z", "number_observed": 1,
+               "objects": {"0": {"type": "file", "name": "f", "custom_properties": {"x_custom_lit": 1}}, "1": {"type": "ipv4-addr", "value": "1.2.3.4"}}}
+        if v == "2.1":
+            odl["spec_version"] = "2.1"
+        idl = dict(g.instance("objects:identity", "min"), custom_properties={"x_custom_lit": 1})
+        bl = {"type": "bundle", "id": "bundle--11111111-1111-4111-8111-111111111111", "objects": [g.instance("objects:identity", "min"), idl]}
+        bod = {"type": "bundle", "id": "bundle--11111111-1111-4111-8111-111111111111", "objects": [odl]}
+        if v == "2.0":
+            bl["spec_version"] = bod["spec_version"] = "2.0"
+        for mode in ("strict", "permissive"):
+            lines.append(custom_one(v, "objects:observed-data", "literal_custom_properties_key_on_container_member", odl, mode, False))
+            lines.append(custom_one(v, "objects:bundle", "bundle_member:literal_custom_properties_key", bl, mode, False))
+            lines.append(custom_one(v, "objects:bundle", "bundle_member:literal_custom_properties_key_on_container_member", bod, mode, False))
         if v == "2.0":
             od = {"type": "observed-data", "id": "observed-data--11111111-1111-4111-8111-111111111111", "created": "2020-01-01T00:00:00.000Z", "modified": "2020-01-01T00:00:00.000Z",
                   "first_observed": "2020-01-01T00:00:00Z", "last_observed": "2020-01-01T00:00:00Z", "number_observed": 1, "objects": {"0": {"type": "x-unregistered-obs", "a": 1}}}
